@@ -326,3 +326,11 @@ func seqStarEndArgs(s *slip.Scope, args slip.List, depth int) (start, end int) {
 	}
 	return
 }
+
+// coerceToBytes coerces arg to octets and returns the bytes. nil, the empty
+// list, is coerced to a nil Object by slip.CoerceToOctets and has no bytes.
+func coerceToBytes(arg slip.Object) []byte {
+	octs, _ := slip.CoerceToOctets(arg).(slip.Octets)
+
+	return []byte(octs)
+}
